@@ -15,6 +15,7 @@ import SpVerif.Ops.Uslp
 import SpVerif.Ops.Verificator
 import SpVerif.Ops.DirectiveFixed
 import SpVerif.Ops.FileData
+import SpVerif.Ops.Mutation
 /-!
 # Line-protocol driver: one JSON object per input line (`{"op": …, …}`), one JSON result per output line.
 `{"ok": …}` / `{"err": "<category>"}` are model results; `{"bad": "<msg>"}` is a protocol error.
@@ -39,6 +40,7 @@ def allOps : List (String × Handler) := []
   ++ Ops.Verificator.ops
   ++ Ops.DirectiveFixed.ops
   ++ Ops.FileData.ops
+  ++ Ops.Mutation.ops
 
 def table : Std.HashMap String Handler := Std.HashMap.ofList allOps
 
